@@ -48,7 +48,9 @@ func NewRetryTransaction(ctx context.Context, retryDelay time.Duration, retryCou
 	go func() {
 		select {
 		case <-ctx.Done():
+			t.retryNumMutex.Lock()
 			t.stopTimer()
+			t.retryNumMutex.Unlock()
 		case <-t.Done():
 			return
 		}
@@ -58,12 +60,16 @@ func NewRetryTransaction(ctx context.Context, retryDelay time.Duration, retryCou
 
 // Transaction.Success() implementation.
 func (t *RetryTransaction) Success() {
+	t.retryNumMutex.Lock()
+	defer t.retryNumMutex.Unlock()
 	t.stopTimer()
 	t.TransactionBase.Success()
 }
 
 // Transaction.Fail() implementation.
 func (t *RetryTransaction) Fail(e error) {
+	t.retryNumMutex.Lock()
+	defer t.retryNumMutex.Unlock()
 	t.stopTimer()
 	t.TransactionBase.Fail(e)
 }
@@ -72,11 +78,24 @@ func (t *RetryTransaction) Fail(e error) {
 func (t *RetryTransaction) Proceed(state interface{}, data interface{}) {
 	t.retryNumMutex.Lock()
 	defer t.retryNumMutex.Unlock()
-
+	if t.isDone() {
+		return
+	}
 	t.State = state
 	t.Data = data
 	t.retryNum = 0
 	t.restartTimer()
+}
+
+// You must acquire t.retryNumMutex before calling the following functions!
+
+func (t *RetryTransaction) isDone() bool {
+	select {
+	case <-t.Done():
+		return true
+	default:
+		return false
+	}
 }
 
 func (t *RetryTransaction) stopTimer() {
@@ -94,13 +113,21 @@ func (t *RetryTransaction) timeout() {
 	t.retryNumMutex.Lock()
 	defer t.retryNumMutex.Unlock()
 
-	t.retryNum++
-	if t.retryNum > t.retryCount {
-		t.Fail(ErrNoMoreRetries)
+	// The transaction could have been finished while the timer was firing.
+	if t.isDone() {
 		return
 	}
-	if err := t.retryCallback(t.Data); err != nil {
-		t.Fail(err)
+
+	t.retryNum++
+	if t.retryNum > t.retryCount {
+		t.TransactionBase.Fail(ErrNoMoreRetries)
+		return
 	}
+
+	if err := t.retryCallback(t.Data); err != nil {
+		t.TransactionBase.Fail(err)
+		return
+	}
+
 	t.restartTimer()
 }
